@@ -6,7 +6,7 @@ import random
 import shutil
 import sys
 import tempfile
-from harness.impl import emit
+from harness.impl import emit, protect_stdout
 from harness.facts_jobs import load_gen_jobs
 
 
@@ -21,6 +21,7 @@ def parse_jobs(path):
 
 
 def main():
+    protect_stdout()
     mod, _ = load_gen_jobs()
     for line in sys.stdin:
         c = json.loads(line)
